@@ -190,7 +190,9 @@ def network_topology_strategy_legacy(ring, locs, dc_rf, token):
     return replicas
 
 
-def selftest(deep=False):
+def selftest(deep=False, light=False):
+    """fixed examples + cross-check of the two NTS formulations on all small rings:
+    light: <=3 hosts; default: + 4 hosts x 1 token; deep: + 4 hosts, 5 tokens"""
     # --- fixed examples (the expectations of /repo/tests/unit/test_metadata.py StrategiesTest, and
     #     hand-derived ones)
     ring = [(0, 'a'), (100, 'b'), (200, 'c')]
@@ -235,7 +237,7 @@ def selftest(deep=False):
     n_cmp = 0
     hosts = 'abcd'
     loc_choices = [('d1', 'r1'), ('d1', 'r2'), ('d2', 'r1'), ('d2', 'r2')]
-    for nh in (1, 2, 3, 4):
+    for nh in ((1, 2, 3) if light else (1, 2, 3, 4)):
         for assign in itertools.product(loc_choices, repeat=nh):
             locs = dict(zip(hosts, assign))
             for extra in range(0, 2 if (deep or nh <= 3) else 1):
